@@ -839,7 +839,34 @@ pub fn check_c07(ctx: &mut Ctx, cfg: &Cfg, how: How) {
     ctx.class_dyn(format!("c07:{kind}:ok:{}", pk(cfg)));
     let models = model_images(cfg);
     let cb = canon(&bytes);
-    let matches = models.iter().any(|m| *m == bytes || canon(m) == cb);
+    let mut matches = models.iter().any(|m| *m == bytes || canon(m) == cb);
+    if !matches {
+        // A compound whose members have alternative images (RPSI with 8 ignored bits) has more combinations than
+        // `model_images` enumerates: compare member by member instead - the written bytes tile into one packet per
+        // leaf member, each of which must be one of that member's images.
+        if let Cfg::Compound(_) = cfg {
+            let mut leaves: Vec<&Cfg> = vec![];
+            fn flat<'a>(c: &'a Cfg, out: &mut Vec<&'a Cfg>) {
+                match c {
+                    Cfg::Compound(m) => m.iter().for_each(|x| flat(x, out)),
+                    o => out.push(o),
+                }
+            }
+            flat(cfg, &mut leaves);
+            if let Some(tiles) = dec::tiling(&bytes) {
+                if tiles.len() == leaves.len() {
+                    matches = tiles.iter().zip(&leaves).all(|(&(a, b), leaf)| {
+                        let t = &bytes[a..b];
+                        let ct = canon(t);
+                        model_images(leaf).iter().any(|m| m[..] == *t || canon(m) == ct)
+                    });
+                    if matches {
+                        ctx.class("c07:compound:matched-member-by-member");
+                    }
+                }
+            }
+        }
+    }
     if !matches {
         let m = &models[0];
         let d = first_diff(&bytes, m);
